@@ -25,6 +25,8 @@ pub assume_specification[f64::to_le_bytes](x: f64) -> (r: [u8; 8]) ensures r@ ==
 /// A8: UTF-8 view of a String
 pub uninterp spec fn str_bytes(s: String) -> Seq<u8>;
 pub uninterp spec fn is_utf8(b: Seq<u8>) -> bool;
+pub assume_specification[String::len](s: &String) -> (r: usize) ensures r == str_bytes(*s).len();
+pub assume_specification[String::into_bytes](s: String) -> (r: Vec<u8>) ensures r@ == str_bytes(s);
 #[verifier::external_body]
 pub fn string_from_utf8(buf: Vec<u8>) -> (r: Result<String, Utf8Error>)
     ensures match r { Ok(s) => str_bytes(s) == buf@ && is_utf8(buf@), Err(_) => !is_utf8(buf@) }
